@@ -19,7 +19,7 @@ EXPLANATION = (
     "as such (R1's order is its necessary condition); re-initialisation of all global state on restart.")
 ASSUMPTIONS = ["util::yield_while(f) returns only when f() returned false", "PIKA_THROW_EXCEPTION does not return"]
 THOROUGH_CONFIGS = [["-UNDEBUG", "-DPIKA_DEBUG"]]
-FLOORS = {"C05.R1": 6, "C05.R2": 2, "C05.R3": 5, "C05.R4": 4, "C05.R5": 5, "C05.R6": 8, "C05.R7": 8, "C05.R8": 1, "C05.R9": 20}
+FLOORS = {"C05.R10": 2, "C05.R1": 6, "C05.R2": 2, "C05.R3": 5, "C05.R4": 4, "C05.R5": 5, "C05.R6": 8, "C05.R7": 8, "C05.R8": 1, "C05.R9": 20}
 
 
 def calls(fn, short=None, qual=None):
@@ -43,6 +43,10 @@ def run(rep, tier):
     rep.rule("C05.R5", "K8: pika::finalize/stop/wait/suspend/resume are dominated by their precondition tests, each ending in a throw")
     rep.rule("C05.R6", "K2: scheduled_thread_pool::stop_locked: wait (blocking) -> resume_internal -> stopping -> do_some_work -> join")
     rep.rule("C05.R7", "K7: scheduling_loop stores 'stopped' and leaves only under !running && cleanup_terminated && no suspended && queue empty")
+    rep.rule("C05.R10", "K4 (who finalizes): inside the runtime only two paths of run_helper open the finalize gate themselves - start-up aborted by the late command-line "
+             "handling, and an exception caught from the entry function; on the normal path the application's own pika::finalize() does (pika::stop() waits for exactly "
+             "that) - a run_helper that finalizes whenever the entry function returns, or when there is none (pika::start(nullptr, ..)), lets stop() tear the runtime down "
+             "while other threads still submit work")
     rep.rule("C05.R8", "K2: run_or_start refuses a second start while a runtime exists")
 
     P_ = facts(rep, lib("thread_pools", "src/scheduled_thread_pool.cpp"),
@@ -312,3 +316,26 @@ def run(rep, tier):
                  "K5/K2 (shared with C19.R2/R5): PU suspend/resume hand-shake - resume keeps notifying until the worker left 'sleeping'; "
                  "suspend_internal drains first, resume_internal resumes every PU - otherwise pika::resume() hangs or queued work never runs")
 
+
+
+    run_helper_finalize_rule(rep)
+
+def run_helper_finalize_rule(rep):
+    RT = facts(rep, lib("runtime", "src/runtime.cpp"), [r"^pika::detail::runtime::run_helper$"])
+    fs = [f for f in RT.find(r"runtime::run_helper$") if f.parent == -1]
+    if len(fs) != 1:
+        raise AnalysisBroken("runtime::run_helper not found")
+    fn = fs[0]
+    ff = FactFlow(fn)
+    fin = [(b, i, e) for b, i, e in fn.all_events() if e.get("k") == "call" and callee_short(e) in ("finalize", "notify_finalize") and (e.get("recv") is None or P(e["recv"]) == "this")]
+    if not fin:
+        raise AnalysisBroken("runtime::run_helper: no finalize() call found (the error paths must open the gate)")
+    for b, i, e in fin:
+        fb = ff.before.get((b, i)) or frozenset()
+        why = [a for a, t in fb if t and re.match(r"^\w+$", a)]
+        if why:
+            rep.ok("C05.R10", fn, "run_helper finalizes at %s only on the path where '%s' holds" % (loc_of(e), why[0]))
+        else:
+            rep.bad("C05.R10", fn, loc_of(e), "finalize-on-normal-path", "runtime::run_helper calls finalize() on a path that is neither the aborted start-up nor the caught-exception path: the "
+                    "finalize gate opens as soon as the entry function returns (or at once for pika::start(nullptr, ..)), pika::stop() no longer waits for the application's "
+                    "pika::finalize() and returns while work is still being submitted")
